@@ -1,0 +1,9 @@
+//go:build verif
+
+// Contracts for the deductive checks in /verif (structured comments only; this file declares nothing).
+package signature
+
+//@ func signature.ParseCertificates
+//@   inline
+//@   property C09
+//@   loop 1 invariant parsed-so-far-non-nil: forall j :: 0 <= j && j <= $ri ==> #certs[j] != nil
